@@ -165,7 +165,47 @@ def _big_nest(n):
     return dict(sorted(g.items()))
 
 
-BIG = [(f, n) for n in (255, 256, 257, 258, 300) for f in (_big_chain, _big_loop)] + [(_big_ladder, 257), (_big_returns, 257), (_big_returns, 300), (_big_comb, 120), (_big_nest, 80)]
+def _big_exits(k):
+    """one loop with k exiting blocks that leave to k DISTINCT blocks (k-way exit dispatch), each returning"""
+    g = {0: (1,)}
+    for i in range(1, k + 1):
+        nxt = i + 1 if i < k else 1
+        g[i] = (k + i, nxt) if i % 2 else (nxt, k + i)
+    for i in range(1, k + 1):
+        g[k + i] = ()
+    return g
+
+
+def _big_entries(k):
+    """a loop entered at k different headers (k-way head dispatch)"""
+    g = {}
+    # dispatch tree of two-way blocks to k loop blocks
+    nxt = [k + 1]
+    heads = list(range(1, k + 1))
+
+    def tree(lo, hi):
+        if hi - lo == 1:
+            return heads[lo]
+        me = nxt[0]
+        nxt[0] += 1
+        mid = (lo + hi) // 2
+        g[me] = None
+        a, b = tree(lo, mid), tree(mid, hi)
+        g[me] = (a, b)
+        return me
+
+    root = tree(0, k)
+    for i, h in enumerate(heads):
+        g[h] = (heads[(i + 1) % k],) if i + 1 < k else (heads[0], nxt[0])
+    g[nxt[0]] = ()
+    # renumber: entry first
+    order = [root] + sorted(x for x in g if x != root)
+    ren = {o: i for i, o in enumerate(order)}
+    return {ren[u]: tuple(ren[t] for t in g[u]) for u in order}
+
+
+MANYWAY = [(_big_exits, k) for k in (5, 8, 9, 10, 13)] + [(_big_entries, k) for k in (5, 9, 12)]
+BIG = [(f, n) for n in (255, 256, 257, 258, 300) for f in (_big_chain, _big_loop)] + [(_big_ladder, 257), (_big_returns, 257), (_big_returns, 300), (_big_comb, 120), (_big_nest, 80)] + MANYWAY
 BIG_THOROUGH = BIG + [(_big_comb, 300), (_big_nest, 200), (_big_chain, 520), (_big_loop, 520), (_big_chain, 1030), (_big_loop, 1030), (_big_ladder, 300), (_big_returns, 520)]
 
 
